@@ -378,6 +378,54 @@ def run(chk):
             continue    # a -= b spelt as a += (-b): the same function
         if used and used != {op}:
             chk.violation(r_ar, key, "%s applies the operators %s; it must apply only '%s'" % (key, sorted(used), op), f["file"], f["l"])
+    # ---- C17.cast: scalar broadcasting
+    r_cast = chk.rule("C17.cast", "udq_cast broadcasts the *scalar* operand over the entities of the set operand, keeps each operand on its own side and pairs wells()/groups() with WELL_VAR/GROUP_VAR", floor=4)
+    uc = [f for f in fx.fns if f["n"] == "udq_cast" and f["file"].endswith("UDQSet.cpp")]
+    if len(uc) != 1:
+        raise core.AnalysisBroken("udq_cast not found")
+    uc = uc[0]
+    pn = [p["n"] for p in uc["params"]]
+    n_b = 0
+    for outer in [n for n in stmt_list(uc["body"]) if n["k"] == "If"]:
+        m = re.match(r"^(?:Opm::)?(?:\(anonymous namespace\)::)?is_scalar\((\w+)\)$", show(outer["cond"]))
+        if not m:
+            continue
+        X = m.group(1)
+        Y = [p for p in pn if p != X][0]
+        for inner in [n for n in walk(outer["then"]) if n["k"] == "If"]:
+            cm = re.match(r"^\((\w+)\.var_type\(\) == Opm::UDQVarType::(\w+)\)$", show(inner["cond"]))
+            rets = [r for r in walk(inner["then"]) if r["k"] == "Return"]
+            if not cm or len(rets) != 1:
+                chk.violation(r_cast, "%s:shape" % X, "udq_cast: unrecognised branch `%s`" % show(inner["cond"]), uc["file"], inner["l"])
+                continue
+            n_b += 1
+            setvar, vt = cm.group(1), cm.group(2)
+            elems = [e for e in walk(rets[0]["e"]) if e["k"] in ("InitList", "Ctor") and len(e.get("c", e.get("a", []))) == 2]
+            parts = [show(strip(x)) for x in (elems[0].get("c") or elems[0].get("a"))] if elems else []
+            key = "%s-scalar:%s" % (X, vt)
+            want_fn = {"WELL_VAR": "Opm::UDQSet::wells", "GROUP_VAR": "Opm::UDQSet::groups"}.get(vt)
+            want_new = "%s(%s.name(), %s.wgnames(), %s[0].get())" % (want_fn, X, Y, X)
+            want = [want_new, Y] if X == pn[0] else [Y, want_new]
+            chk.instance(r_cast, key, sample=dict(scalar=X, set=Y, set_type=vt, returns=parts))
+            if setvar != Y or parts != want:
+                chk.violation(r_cast, key, "udq_cast with scalar `%s` and %s set `%s` returns {%s}; it must return {%s}: the scalar's own value broadcast over the set's entities, operands kept in place" % (X, vt, Y, ", ".join(parts), ", ".join(want)), uc["file"], inner["l"])
+    if n_b != 4:
+        chk.violation(r_cast, "branches", "udq_cast has %d scalar-broadcast branches; expected scalar-left/right x well/group = 4" % n_b, uc["file"], uc["l"])
+    first = [n for n in stmt_list(uc["body"]) if n["k"] == "If"][0]
+    chk.instance(r_cast, "same-type", sample=show(first["cond"])[:120])
+    if "(lhs.var_type() == rhs.var_type())" not in show(first["cond"]) or not show([r for r in walk(first["then"]) if r["k"] == "Return"][0]["e"]).replace(" ", "").endswith("{lhs,rhs}"):
+        chk.violation(r_cast, "same-type", "udq_cast no longer passes operands of equal type through unchanged", uc["file"], first["l"])
+    # every binary set operator goes through udq_cast and applies its own compound operator to (left, right)
+    for f in fx.fns:
+        mm = re.match(r"^operator([-+*/])$", f["n"])
+        if not mm or not f["file"].endswith("UDQSet.cpp") or f.get("cls") or [p["t"] for p in f["params"]] != ["const Opm::UDQSet &", "const Opm::UDQSet &"]:
+            continue
+        txt = show(f["body"])
+        ok = "udq_cast(lhs, rhs)" in txt and re.search(r"\(left %s= right\)" % re.escape(mm.group(1)), txt) and "return left" in txt
+        chk.instance(r_cast, "op" + mm.group(1), sample=txt[:120])
+        if not ok:
+            chk.violation(r_cast, "op" + mm.group(1), "operator%s(UDQSet, UDQSet) must cast both operands with udq_cast(lhs, rhs) and return left %s= right" % (mm.group(1), mm.group(1)), f["file"], f["l"])
+
     chk.assumptions += [
         "documented precedence: parentheses/functions, ^, * /, + -, comparisons, set operators (the property statement)",
         "NAME_IMPL / NAME_TOKEN in rules/C17.py: documented meaning of every UDQ function and operator name",
